@@ -2,6 +2,7 @@ import AITB.Model.Proto
 import AITB.Model.Belief
 import AITB.Gen.Constants
 import AITB.Gen.BeliefSrc
+import AITB.Gen.BeliefDeepSrc
 open AITB AITB.Belief
 
 /-!
@@ -55,20 +56,23 @@ structure Block where
   reward : Rat
   obs : Array OBlock
 
-def oblock (S : Nat) : P OBlock := do
-  let un ← qsN S; let no ← xsN S; let pun ← qsN S; let pno ← xsN S; let sosa ← qsN (S * S)
+def oblock (sosaOn : Bool) (S : Nat) : P OBlock := do
+  let un ← qsN S; let no ← xsN S; let pun ← qsN S; let pno ← xsN S; let sosa ← qsN (if sosaOn then S * S else 0)
   pure { un, no, pun, pno, sosa }
 
-def block (rep : String) (S O : Nat) : P Block := do
+def block (sosaOn : Bool) (rep : String) (S O : Nat) : P Block := do
   P.bar; P.lit rep
   let part ← qsN S; let reward ← P.q
-  let obs ← P.rep (oblock S) O
+  let obs ← P.rep (oblock sosaOn S) O
   pure { rep, part, reward, obs := obs.toArray }
 
 def tolSmall : Rat := AITB.Gen.equalToleranceSmall
 
 /-- the tables a representation actually stores -/
 def storedModel (rep : String) (m : POMDP) : POMDP := if rep == "sparse" then sparsify tolSmall m else m
+
+/-- `raw` routes (NO_CHECK constructors, Eigen-matrix setters, default constructor) store the supplied matrices as they are -/
+def storedModelR (raw : Bool) (rep : String) (m : POMDP) : POMDP := if raw then m else storedModel rep m
 
 def tablesChanged (m mm : POMDP) : Bool :=
   !(allLt m.S (fun s => allLt m.S (fun s1 => m.T s 0 s1 == mm.T s 0 s1) && allLt m.O (fun o => m.Ob s 0 o == mm.Ob s 0 o)))
@@ -82,16 +86,16 @@ def mPartialUnnorm (rep : String) (mm : POMDP) (b : Vec) (a o : Nat) : Vec :=
   if rep == "generic" then partialUnnormG mm b a o else partialUnnormE mm b a o
 def mSosa (rep : String) (mm : POMDP) (a o : Nat) : Mat :=
   if rep == "generic" then sosaG mm a o else sosaE mm a o
-def mReward (conv : Bool) (rep : String) (m mm : POMDP) (b : Vec) (a : Nat) : Rat :=
+def mReward (raw conv : Bool) (rep : String) (m mm : POMDP) (b : Vec) (a : Nat) : Rat :=
   if rep == "generic" then rewardG mm b a
-  else if rep == "sparse" then (if conv then rewardSpConv tolSmall m b a else rewardSp tolSmall m b a)
+  else if rep == "sparse" && !raw then (if conv then rewardSpConv tolSmall m b a else rewardSp tolSmall m b a)
   else rewardE mm b a
 
 /-- checks of one representation's block -/
-def checkBlock (conv exact : Bool) (m : POMDP) (b : Vec) (B : Block) (v : Verdict) : Verdict := Id.run do
+def checkBlock (raw sosaOn conv exact : Bool) (m : POMDP) (b : Vec) (B : Block) (v : Verdict) : Verdict := Id.run do
   let S := m.S; let O := m.O
   let rep := B.rep
-  let mm := storedModel rep m
+  let mm := storedModelR raw rep m
   let c (fn : String) := fn ++ "/" ++ rep
   let mut v := v
   let part := arrVec B.part
@@ -102,7 +106,7 @@ def checkBlock (conv exact : Bool) (m : POMDP) (b : Vec) (B : Block) (v : Verdic
   v := fIf v (!(allLt S fun s1 => decide (0 ≤ part s1))) (fun _ => s!"{c "updateBeliefPartial"} negative_entry {B.part}")
   v := fIf v (!(decide (absQ (sumTo S part - 1) ≤ 1 / 100000))) (fun _ => s!"{c "updateBeliefPartial"} not_distribution sum={ratStr (sumTo S part)}")
   -- ---- reward (not a clause of the property: correspondence only)
-  let mr := mReward conv rep m mm b 0
+  let mr := mReward raw conv rep m mm b 0
   v := dIf v (!(if exact then mr == B.reward else closeQ tol9 mr B.reward)) (fun _ => s!"{c "beliefExpectedReward"} model={ratStr mr} impl={ratStr B.reward}")
   -- ---- per observation
   for o in List.range O do
@@ -120,11 +124,15 @@ def checkBlock (conv exact : Bool) (m : POMDP) (b : Vec) (B : Block) (v : Verdic
     v := dIf v (!(allLt S fun s => eqv exact (mpu s) (pun s))) (fun _ => s!"{c "updateBeliefPartialUnnormalized"} o={o} model={toList S mpu} impl={ob.pun}")
     v := fIf v (!(allLt S fun s => eqv exact (mm.Ob s 0 o * part s) (pun s))) (fun _ => s!"{c "updateBeliefPartialUnnormalized"} not_correct_step o={o} impl={ob.pun}")
     v := fIf v (!(allLt S fun s => eqv exact (un s) (pun s))) (fun _ => s!"{c "updateBeliefPartialUnnormalized"} two_stage_mismatch o={o} one={ob.un} two={ob.pun}")
+    -- loop branch: same operations in the same order, hence bit-identical whatever the rounding (theorem `two_stage_fl_eq`)
+    v := dIf v (rep == "generic" && ob.un != ob.pun) (fun _ => s!"{c "updateBeliefPartialUnnormalized"} two-stage result not bit-identical to one-stage o={o} one={ob.un} two={ob.pun}")
+    v := dIf v (rep == "generic" && po > 0 && !(ob.no == ob.pno)) (fun _ => s!"{c "updateBeliefPartialNormalized"} two-stage result not bit-identical to one-stage o={o} one={ob.no.toList} two={ob.pno.toList}")
     -- SOSA
     let ms := mSosa rep mm 0 o
-    v := dIf v (!(allLt S fun s => allLt S fun s1 => eqv exact (ms s s1) (sosa s s1))) (fun _ => s!"{c "makeSOSA"} o={o} model={toList2 S S ms} impl={ob.sosa}")
-    v := fIf v (!(if exact then checkSosa mm 0 o sosa else allLt S fun s => allLt S fun s1 => relClose (mm.T s 0 s1 * mm.Ob s1 0 o) (sosa s s1))) (fun _ => s!"{c "makeSOSA"} entry_not_T_times_O o={o} impl={ob.sosa}")
-    v := fIf v (!(allLt S fun s1 => eqv exact (sumTo S (fun s => b s * sosa s s1)) (un s1))) (fun _ => s!"{c "makeSOSA"} sosa_row_mismatch o={o}")
+    if sosaOn then
+     v := dIf v (!(allLt S fun s => allLt S fun s1 => eqv exact (ms s s1) (sosa s s1))) (fun _ => s!"{c "makeSOSA"} o={o} model={toList2 S S ms} impl={ob.sosa}")
+     v := fIf v (!(if exact then checkSosa mm 0 o sosa else allLt S fun s => allLt S fun s1 => relClose (mm.T s 0 s1 * mm.Ob s1 0 o) (sosa s s1))) (fun _ => s!"{c "makeSOSA"} entry_not_T_times_O o={o} impl={ob.sosa}")
+     v := fIf v (!(allLt S fun s1 => eqv exact (sumTo S (fun s => b s * sosa s s1)) (un s1))) (fun _ => s!"{c "makeSOSA"} sosa_row_mismatch o={o}")
     -- normalised forms: only for observations of positive probability
     if po > 0 then
       match xsFin ob.no, xsFin ob.pno with
@@ -148,6 +156,16 @@ def checkBlock (conv exact : Bool) (m : POMDP) (b : Vec) (B : Block) (v : Verdic
         let slack := if exact then 0 else tol9
         decide (absQ (tot - part s1) ≤ dev * absQ (part s1) + slack)))
       (fun _ => s!"{c "updateBeliefUnnormalized"} sum_over_o_not_predict partial={B.part}")
+  -- ---- law of total probability on the library's outputs: Σ_o (Σ un_o) · updateBelief_o = prediction (observations of positive probability)
+  v := fIf v (!(allLt S fun s1 =>
+        let e : OBlock := { un := #[], no := #[], pun := #[], pno := #[], sosa := #[] }
+        let tot := sumTo O (fun o =>
+          let ob := B.obs.getD o e
+          let p := sumTo S (arrVec ob.un)
+          if p > 0 then (match ob.no.getD s1 .nan with | .fin q => p * q | _ => 0) else 0)
+        let dev := absQ (sumTo O (fun o => mm.Ob s1 0 o) - 1)
+        decide (absQ (tot - part s1) ≤ (dev + tol9) * absQ (part s1) + (if exact then 0 else tol9))))
+      (fun _ => s!"{c "updateBelief"} total_probability_mismatch partial={B.part}")
   return v
 
 /-- cross-representation agreement: `other` against the dense block -/
@@ -184,36 +202,60 @@ def crossSparseDropped (exact : Bool) (S O : Nat) (D X : Block) (v : Verdict) : 
           let df := d.getD s1 0 - x.getD s1 0
           decide (-slack ≤ df) && decide (df ≤ 2 * tolSmall + slack)))
         (fun _ => s!"updateBeliefUnnormalized/sparse differs_from_dense_beyond_threshold o={o} dense={d} sparse={x}")
+    -- normalised forms (theorem `posterior_sparse_close`): within S·2·tol·(1+tol) / P_dense(o | b, a), when both are finite
+    let pd := sumTo S (arrVec d)
+    match xsFin (D.obs.getD o e).no, xsFin (X.obs.getD o e).no with
+    | some nd, some nx =>
+      if pd > 0 then
+        v := fIf v (!(allLt S fun s1 =>
+              decide (absQ (nd.getD s1 0 - nx.getD s1 0) ≤ (S : Rat) * (2 * tolSmall * (1 + tolSmall)) / pd + tol9)))
+            (fun _ => s!"updateBelief/sparse differs_from_dense_beyond_threshold o={o} dense={nd} sparse={nx}")
+    | _, _ => pure ()
   return v
 
 /-- `upd exact S O | T | Ob | R | b | dense … | sparse … | generic … | usereigen …` -/
-def upd (conv : Bool) : P String := do
-  let exact ← P.bool; let S ← P.nat; let O ← P.nat; P.bar
+def upd : P String := do
+  let route ← P.tok
+  let conv := route == "conv"; let raw := route == "raw"
+  let exact ← P.bool; let sosaOn ← P.bool; let S ← P.nat; let O ← P.nat; P.bar
   let T ← qsN (S * S); P.bar
   let Ob ← qsN (S * O); P.bar
   let R ← qsN (S * S); P.bar
   let bA ← qsN S
-  let D ← block "dense" S O
-  let Sp ← block "sparse" S O
-  let G ← block "generic" S O
-  let UE ← block "usereigen" S O
+  let D ← block sosaOn "dense" S O
+  let Sp ← block sosaOn "sparse" S O
+  let G ← block sosaOn "generic" S O
+  let UE ← block sosaOn "usereigen" S O
+  let US ← block sosaOn "usersparse" S O
+  P.bar; P.lit "pob"
+  let pob ← qsN O
   P.eof
   let m : POMDP := { S := S, A := 1, O := O,
                      T := fun s _ s1 => T.getD (s * S + s1) 0,
                      Ob := fun s1 _ o => Ob.getD (s1 * O + o) 0,
                      R := fun s _ s1 => R.getD (s * S + s1) 0 }
   let b := arrVec bA
-  let dropped := tablesChanged m (sparsify tolSmall m)
+  let dropped := !raw && tablesChanged m (sparsify tolSmall m)
   let zero := (List.range O).any (fun o => probO m b 0 o == 0)
-  let tag := (if S ≤ 1 then "trivial " else "") ++ (if conv then "updc" else "upd") ++ (if zero then " zero_prob" else "") ++ (if dropped then " sparse_dropped" else "")
+  let tag := (if S ≤ 1 then "trivial " else "") ++ "upd_" ++ route ++ (if zero then " zero_prob" else "") ++ (if dropped then " sparse_dropped" else "")
       ++ (if exact then " exact" else " approx")
   let v : Verdict := { tag := tag }
-  let v := checkBlock conv exact m b D v
-  let v := checkBlock conv exact m b Sp v
-  let v := checkBlock conv exact m b G v
-  let v := checkBlock conv exact m b UE v
+  let v := checkBlock raw sosaOn conv exact m b D v
+  let v := checkBlock raw sosaOn conv exact m b Sp v
+  let v := checkBlock raw sosaOn conv exact m b G v
+  let v := checkBlock raw sosaOn conv exact m b UE v
+  let v := checkBlock raw sosaOn conv exact m b US v
+  -- the library's own P(o | b, a): `SparseModel::getObservationProbability(b, o, a)` on the sparse model of the line
+  let ms := storedModelR raw "sparse" m
+  let cP := "SparseModel::getObservationProbability(b,o,a)/sparse"
+  let e : OBlock := { un := #[], no := #[], pun := #[], pno := #[], sosa := #[] }
+  let v := dIf v (!(allLt O fun o => eqv exact (obsProbB ms b 0 o) (pob.getD o 0))) (fun _ => s!"{cP} model={toList O (obsProbB ms b 0)} impl={pob}")
+  let v := fIf v (!(allLt O fun o => eqv exact (probO ms b 0 o) (pob.getD o 0))) (fun _ => s!"{cP} prob_o_mismatch impl={pob} spec={toList O (probO ms b 0)}")
+  let v := fIf v (!(allLt O fun o => eqv exact (sumTo S (arrVec (Sp.obs.getD o e).un)) (pob.getD o 0))) (fun _ => s!"{cP} prob_o_not_sum_of_update impl={pob}")
+  let v := fIf v (!(allLt O fun o => decide (0 ≤ pob.getD o 0))) (fun _ => s!"{cP} negative_probability impl={pob}")
   let v := crossCheck exact S O D G v
   let v := crossCheck exact S O D UE v
+  let v := crossCheck exact S O D US v
   let v := if dropped then crossSparseDropped exact S O D Sp v else crossCheck exact S O D Sp v
   return v.render
 
@@ -227,13 +269,16 @@ def hist : P String := do
   let steps ← P.rep (do let a ← P.nat; let o ← P.nat; pure (a, o)) n
   P.bar
   let outs ← P.rep (do let al ← qsN S; let be ← xsN S; pure (al, be)) n
+  P.bar
+  let np ← P.nat
+  let pobs ← qsN np
   P.eof
   let m : POMDP := { S := S, A := A, O := O,
                      T := fun s a s1 => T.getD (a * S * S + s * S + s1) 0,
                      Ob := fun s1 a o => Ob.getD (a * S * O + s1 * O + o) 0,
                      R := fun _ _ _ => 0 }
   let mm := storedModel rep m
-  let c (fn : String) := fn ++ "/" ++ rep
+  let c (fn : String) := fn ++ "/" ++ (if rep == "sparseraw" then "sparse" else rep)
   let v : Verdict := { tag := (if S ≤ 1 || n == 0 then "trivial " else "") ++ s!"hist len_{n}" }
   -- walk the history: model forward vector (materialised at each step) against the library's
   let rec go (k : Nat) (alpha : Array Rat) : List ((Nat × Nat) × (Array Rat × Array XRat)) → Verdict → Verdict
@@ -255,6 +300,23 @@ def hist : P String := do
         else v
       go (k + 1) alpha' rest v
   let v := go 1 b0 (steps.zip outs) v
+  -- the model's own P(o_t | b_{t-1}, a_t) along the history (theorems `obsProbB_eq_probO`, `seqProb_eq_likelihood`, `forward_sum_eq_seqProb`):
+  -- each is Σα_t / Σα_{t-1}, and their product is the likelihood of the observation sequence Σα_n
+  let v := if np == 0 then v else Id.run do
+    let mut v := v
+    let mut alpha : Array Rat := b0
+    let mut prod : Rat := 1
+    let cP := "SparseModel::getObservationProbability(b,o,a)/sparse"
+    for ((a, o), p) in steps.zip pobs.toList do
+      let prev := sumTo S (arrVec alpha)
+      let spec := unnormG mm (arrVec alpha) a o
+      alpha := ((List.range S).map spec).toArray
+      let cur := sumTo S spec
+      prod := prod * p
+      v := fIf v (prev > 0 && !(relClose (cur / prev) p)) (fun _ => s!"{cP} prob_o_mismatch on history impl={ratStr p} spec={ratStr (cur / prev)}")
+    let lik := sumTo S (arrVec alpha)
+    v := fIf v (pobs.size == n && !(relClose lik prod)) (fun _ => s!"{cP} likelihood_mismatch product={ratStr prod} likelihood={ratStr lik}")
+    return v
   return v.render
 
 /-- `inplace fn rep exact S O o | T_a | Ob_a | in | out | inplace` : a pointer overload called with `bRet == &in`.
@@ -316,6 +378,150 @@ def inplace : P String := do
   let v := fIf v (!(sameX ex outX inplX)) (fun _ => s!"{comp} in_place_differs out_of_place={outX.toList} in_place={inplX.toList}")
   return v.render
 
+def slack9 : Rat := tol9
+
+/-- rows of a table: deviation of the row sum from one, smallest entry -/
+def rowDev (n : Nat) (row : Nat → Rat) : Rat := absQ (sumTo n row - 1)
+
+/-- some row sum (or sub-threshold mass) is so close to the tolerance that double rounding of the library's own sum decides -/
+def nearTol (x : Rat) : Bool := decide (absQ (x - tolSmall) ≤ slack9)
+
+def mk3 (S A O : Nat) (T Ob : Array Rat) : POMDP :=
+  { S := S, A := A, O := O,
+    T := fun s a s1 => T.getD (a * S * S + s * S + s1) 0,
+    Ob := fun s1 a o => Ob.getD (a * S * O + s1 * O + o) 0,
+    R := fun _ _ _ => 0 }
+
+/-- every row of both tables: `p (row length) (row)` -/
+def allRows (m : POMDP) (p : Nat → (Nat → Rat) → Bool) : Bool :=
+  allLt m.A (fun a => allLt m.S (fun s => p m.S (fun s1 => m.T s a s1) && p m.O (fun o => m.Ob s a o)))
+
+/-- `tab class route S A O | T | Ob | getTransitionProbability | getTransitionFunction(a) | getObservationProbability | getObservationFunction(a)`:
+    what a constructed model hands to the belief helpers is the supplied table (sparse table routes: without the
+    sub-threshold entries, nothing rescaled), and it is an accepted model -/
+def tab : P String := do
+  let cls ← P.tok; let route ← P.tok; let S ← P.nat; let A ← P.nat; let O ← P.nat; P.bar
+  let T ← qsN (A * S * S); P.bar
+  let Ob ← qsN (A * S * O); P.bar
+  let gT ← qsN (A * S * S); P.bar
+  let gTF ← qsN (A * S * S); P.bar
+  let gO ← qsN (A * S * O); P.bar
+  let gOF ← qsN (A * S * O)
+  P.eof
+  let m := mk3 S A O T Ob
+  let raw := route == "raw"
+  let mm := if cls == "sparse" && !raw then sparsify tolSmall m else m
+  let comp := (if cls == "sparse" then "SparseModel" else "Model") ++ "/" ++ route
+  let v : Verdict := { tag := (if S ≤ 1 then "trivial " else "") ++ "tab_" ++ cls ++ "_" ++ route }
+  let expT : Array Rat := ((List.range (A * S * S)).map (fun i => mm.T ((i / S) % S) (i / (S * S)) (i % S))).toArray
+  let expO : Array Rat := ((List.range (A * S * O)).map (fun i => mm.Ob ((i / O) % S) (i / (S * O)) (i % O))).toArray
+  let v := fIf v (gT != expT) (fun _ => s!"{comp} stored_table_differs getTransitionProbability impl={gT} expected={expT}")
+  let v := fIf v (gTF != expT) (fun _ => s!"{comp} stored_table_differs getTransitionFunction impl={gTF} expected={expT}")
+  let v := fIf v (gO != expO) (fun _ => s!"{comp} stored_table_differs getObservationProbability impl={gO} expected={expO}")
+  let v := fIf v (gOF != expO) (fun _ => s!"{comp} stored_table_differs getObservationFunction impl={gOF} expected={expO}")
+  -- the stored model (as the getters report it) is an accepted one: non-negative, rows within the tolerance (+1e-9 for the library's rounded sums)
+  let g := mk3 S A O gT gO
+  let okRows := allRows g (fun n row => allLt n (fun i => decide (0 ≤ row i)) && decide (rowDev n row ≤ tolSmall + slack9))
+  let v := fIf v (!raw && !okRows) (fun _ => s!"{comp} accepted_invalid_model stored T={gT} Ob={gO}")
+  return v.render
+
+/-- `accept class S A O | T | Ob | accepted` : the table constructors against `acceptDense` / `acceptSparse` -/
+def accept : P String := do
+  let cls ← P.tok; let S ← P.nat; let A ← P.nat; let O ← P.nat; P.bar
+  let T ← qsN (A * S * S); P.bar
+  let Ob ← qsN (A * S * O); P.bar
+  let acc ← P.bool
+  P.eof
+  let m := mk3 S A O T Ob
+  if cls == "denseM" || cls == "sparseM" || cls == "sparseM0" then
+    -- Eigen-matrix setters: `isProbability(const Matrix3D &)` / `(const SparseMatrix3D &)`; nothing is dropped
+    let spM := cls != "denseM"
+    let comp := (if spM then "SparseModel" else "Model") ++ "/matrix_setters"
+    let absDev (n : Nat) (row : Nat → Rat) : Rat := absQ (sumTo n (fun i => absQ (row i)) - 1)
+    let ill := !(allRows m (fun n row => !nearTol (rowDev n row) && !(spM && nearTol (absDev n row))))
+    if ill then return "skip ill_conditioned"
+    let model := if spM then allRows m (fun n row => isProbRowSpAs AITB.Gen.BeliefDeepSrc.sparseSignTest tolSmall n row)
+                 else allRows m (fun n row => isProbRowE tolSmall n row)
+    let v : Verdict := { tag := "accept_" ++ cls ++ (if acc then "_yes" else "_no") }
+    let v := dIf v (model != acc) (fun _ => s!"{comp} model={model} impl={acc}")
+    -- the sparse form as it stands has no sign test (Props.C05Load.isProbRowSp_accepts_negative, sparse_setters_unsigned_counterexample):
+    -- entries in [-tol, 0) pass, and `updateBelief` on the accepted object then returns negative "probabilities" (finding C05-2;
+    -- class `sparseM0` = the same probe with that judgement left out)
+    let v := fIf v (acc && cls == "sparseM" && !(allRows m (fun n row => allLt n (fun i => decide (0 ≤ row i)))))
+        (fun _ => s!"{comp} accepted_negative_entry")
+    let v := fIf v (acc && !spM && !acceptDense tolSmall m) (fun _ => s!"{comp} accepted_invalid_model (negative entry or row sum beyond the tolerance)")
+    let v := fIf v (acc && spM && !(allRows m (fun n row => decide (rowDev n row ≤ tolSmall) && allLt n (fun i => decide (-tolSmall ≤ row i)))))
+        (fun _ => s!"{comp} accepted_invalid_model (row sum beyond the tolerance or entry below -tolerance)")
+    return v.render
+  if cls == "sparseC" then
+    -- SparseModel(const M&) from a dense Model that was itself accepted
+    let comp := "SparseModel/converting_ctor"
+    let ill := !(allRows (sparsify tolSmall m) (fun n row => !nearTol (rowDev n row)))
+    if ill then return "skip ill_conditioned"
+    let model := acceptSparseConv tolSmall m
+    let v : Verdict := { tag := "accept_" ++ cls ++ (if acc then "_yes" else "_no") }
+    let v := dIf v (model != acc) (fun _ => s!"{comp} model={model} impl={acc}")
+    let v := fIf v (acc && !(allRows (sparsify tolSmall m) (fun n row => allLt n (fun i => decide (0 ≤ row i)) && decide (rowDev n row ≤ tolSmall))))
+        (fun _ => s!"{comp} accepted_invalid_model (stored rows beyond the tolerance once sub-threshold entries are dropped)")
+    return v.render
+  let sp := cls == "sparse"
+  let comp := (if sp then "SparseModel" else "Model") ++ (if cls == "denseC" then "/converting_ctor" else "/ctor")
+  -- decided by rounding? (a row sum, or for the sparse class a stored row sum, within 1e-9 of the tolerance)
+  let ill := !(allRows m (fun n row => !nearTol (rowDev n row))) ||
+             (sp && !(allRows (sparsify tolSmall m) (fun n row => !nearTol (rowDev n row))))
+  if ill then return "skip ill_conditioned"
+  let model := if sp then acceptSparse tolSmall m else acceptDense tolSmall m
+  let v : Verdict := { tag := "accept_" ++ cls ++ (if acc then "_yes" else "_no") }
+  let v := dIf v (model != acc) (fun _ => s!"{comp} model={model} impl={acc}")
+  -- property side: whatever the constructor accepts must be an accepted model (Props.C05Load.acceptDense_iff), else the Bayes clauses are void
+  let v := fIf v (acc && !acceptDense tolSmall m) (fun _ => s!"{comp} accepted_invalid_model (negative entry or row sum beyond the tolerance)")
+  let v := fIf v (acc && sp && !(allRows (sparsify tolSmall m) (fun n row => decide (rowDev n row ≤ tolSmall))))
+      (fun _ => s!"{comp} accepted_invalid_model (stored rows beyond the tolerance once sub-threshold entries are dropped)")
+  return v.render
+
+/-- `traj rep S A O | T | Ob | b0 | s0 n (a s1 o)* | bel_t*` : a trajectory the model simulated itself (`sampleSOR`) while the belief was
+    maintained by `updateBelief`.  Clauses (theorem `filter_tracks_truth`): every sampled step is possible under the stored tables,
+    every observation then has positive probability under the filtered belief, the library's belief is finite, is the Bayes posterior, and
+    never gives the true state probability zero. -/
+def traj : P String := do
+  let rep ← P.tok; let S ← P.nat; let A ← P.nat; let O ← P.nat; P.bar
+  let T ← qsN (A * S * S); P.bar
+  let Ob ← qsN (A * S * O); P.bar
+  let b0 ← qsN S; P.bar
+  let s0 ← P.nat; let n ← P.nat
+  let steps ← P.rep (do let a ← P.nat; let s1 ← P.nat; let o ← P.nat; pure (a, s1, o)) n
+  P.bar
+  let bels ← P.rep (xsN S) n
+  P.eof
+  let m := mk3 S A O T Ob
+  let mm := storedModel rep m
+  let repc := if rep == "sparseraw" then "sparse" else rep
+  let v : Verdict := { tag := (if S ≤ 1 || n == 0 then "trivial " else "") ++ s!"traj" }
+  let v := fIf v (!(consistentB mm s0 steps)) (fun _ => s!"sampleSOR/{repc} sampled_impossible_step s0={s0} steps={steps}")
+  let rec go (k : Nat) (s : Nat) (bel : Array Rat) : List ((Nat × Nat × Nat) × Array XRat) → Verdict → Verdict
+    | [], v => v
+    | ((a, s1, o), implX) :: rest, v =>
+      let b := arrVec bel
+      let w := unnormG mm b a o
+      let po := sumTo S w
+      let possible := decide (0 < mm.T s a s1) && decide (0 < mm.Ob s1 a o)
+      if po ≤ 0 then
+        -- cannot happen for a possible step (unnorm_pos_of_step); if the simulator left the tables, it was reported above
+        fIf v possible (fun _ => s!"updateBelief/{repc} observation_of_zero_probability_on_trajectory step={k}")
+      else
+        match xsFin implX with
+        | none => fIf v true (fun _ => s!"updateBelief/{repc} not_finite step={k} P(o|b,a)={ratStr po} impl={implX.toList}")
+        | some impl =>
+          let post : Array Rat := ((List.range S).map (fun i => w i / po)).toArray
+          let v := fIf v (!(allLt S fun i => relClose (post.getD i 0) (impl.getD i 0)))
+            (fun _ => s!"updateBelief/{repc} filter_not_posterior step={k} impl={impl} spec={post}")
+          let v := fIf v (possible && !(decide (0 < impl.getD s1 0)))
+            (fun _ => s!"updateBelief/{repc} true_state_excluded step={k} true_state={s1} impl={impl}")
+          -- continue from the exact posterior (the library's own belief is within 1e-9 of it)
+          go (k + 1) s1 post rest v
+  let v := go 1 s0 b0 (steps.zip bels) v
+  return v.render
+
 /-- `overload <component> <what>` : two overloads of one helper returned different bits -/
 def overload : P String := do
   let comp ← P.tok; let what ← P.tok; P.eof
@@ -323,8 +529,10 @@ def overload : P String := do
 
 def handle (toks : List String) : String :=
   let r := match toks with
-    | "upd" :: rest => P.run (upd false) rest
-    | "updc" :: rest => P.run (upd true) rest
+    | "upd" :: rest => P.run upd rest
+    | "tab" :: rest => P.run tab rest
+    | "accept" :: rest => P.run accept rest
+    | "traj" :: rest => P.run traj rest
     | "hist" :: rest => P.run hist rest
     | "inplace" :: rest => P.run inplace rest
     | "overload" :: rest => P.run overload rest
